@@ -475,3 +475,16 @@ pub fn spread_samples<T: Clone>(items: &[T], n: usize) -> Vec<T> {
     }
     (0..n).map(|i| items[i * items.len() / n].clone()).collect()
 }
+
+/// What the server reads when `a` is sent as the single argument of a request: the rendering is
+/// put on a request line and split by the port of MPD's tokenizer (a bare word and its quoted
+/// spelling are the same argument). Falls back to the raw rendering if MPD would reject the line.
+pub fn argument_as_the_server_reads_it(a: &impl mpd_protocol::command::Argument) -> String {
+    let mut b = bytes::BytesMut::new();
+    b.extend_from_slice(b"x ");
+    a.render(&mut b);
+    match crate::mpdref::tokenizer::tokenize(&b) {
+        Ok(req) if req.args.len() == 1 => String::from_utf8_lossy(&req.args[0]).into_owned(),
+        _ => String::from_utf8_lossy(&b[2..]).into_owned(),
+    }
+}
